@@ -107,7 +107,7 @@ impl Property for P {
     }
     fn cases(tier: Tier) -> u64 {
         match tier {
-            Tier::Quick => 20_000,
+            Tier::Quick => 120_000,
             Tier::Thorough => 2_000_000,
         }
     }
